@@ -68,6 +68,10 @@ type BuildScenario struct {
 	Dup       []int     `json:"dup"`       // mempool indices the validity window reports as repeats
 	Cores     int       `json:"cores"`
 	TargetTxs int       `json:"targetTxsSize"`
+	// StateTsLag > 0: the timestamp stored in the parent STATE is this much earlier than the parent block's HEADER
+	// timestamp (as for a genesis parent, DESIGN.md F-17): the builder measures its gaps against the header, the
+	// verifier against the state
+	StateTsLag int64 `json:"stateTsLag"`
 }
 
 type buildMirror struct {
@@ -145,6 +149,9 @@ func genBuildScenario(r *rand.Rand) *BuildScenario {
 	b.ParentAge = pick(r, []int64{150, 400, 800, 1000, 2500, 9000, 11000, 30})
 	if r.Intn(6) == 0 {
 		b.TargetTxs = 300 + r.Intn(1500) // size cap reached after a few txs
+	}
+	if r.Intn(6) == 0 {
+		b.StateTsLag = pick(r, []int64{1, 50, 1000, 5000, 100000})
 	}
 	// mempool admission (chain/pre_executor.go) has verified every signature: BuildBlock never does
 	for i := range s.Txs {
@@ -232,7 +239,8 @@ func runBuild(b *BuildScenario) (emit.Case, error) {
 	ctx := context.Background()
 	s := b.Base
 	now := time.Now().UnixMilli()
-	s.ParentTs = uint64(now - b.ParentAge)
+	hdrTs := now - b.ParentAge
+	s.ParentTs = uint64(hdrTs - b.StateTsLag)
 	s.ParentFee.LastSec = s.ParentTs / 1000
 	base := (now/1000 + 1) * 1000
 	for i := range s.Txs {
@@ -297,7 +305,7 @@ func runBuild(b *BuildScenario) (emit.Case, error) {
 	if err != nil {
 		return emit.Case{}, err
 	}
-	parentBlk, err := hchain.NewStatelessBlock(ids.ID{9}, int64(s.ParentTs), s.ParentH, nil, root, &block.Context{})
+	parentBlk, err := hchain.NewStatelessBlock(ids.ID{9}, hdrTs, s.ParentH, nil, root, &block.Context{})
 	if err != nil {
 		return emit.Case{}, err
 	}
@@ -332,7 +340,7 @@ func runBuild(b *BuildScenario) (emit.Case, error) {
 		mir.Restored = append(mir.Restored, i)
 	}
 	sort.Ints(mir.Restored)
-	hdrH, hdrTs := s.ParentH, int64(s.ParentTs)
+	hdrH := s.ParentH
 	if berr != nil {
 		mir.BuildErr = berr.Error()
 		after := time.Now().UnixMilli()
@@ -341,12 +349,12 @@ func runBuild(b *BuildScenario) (emit.Case, error) {
 		switch {
 		case errors.Is(berr, hchain.ErrTimestampTooEarly):
 			mir.Outcome = 1
-			if now-int64(s.ParentTs) >= rules.MinBlockGap+5 {
+			if now-hdrTs >= rules.MinBlockGap+5 {
 				sanity = "builder refused with timestamp-too-early although the gap had passed"
 			}
 		case errors.Is(berr, hchain.ErrNoTxs):
 			mir.Outcome = 2
-			if now-int64(s.ParentTs) >= rules.MinEmptyBlockGap+5 {
+			if now-hdrTs >= rules.MinEmptyBlockGap+5 {
 				sanity = "builder refused an empty block although the empty-block gap had passed"
 			}
 		default:
